@@ -17,9 +17,15 @@ from . import env
 STALL = int(os.environ.get("VERIF_MAP_STALL", "900"))
 
 
+class Aborted(RuntimeError):
+    """Workers stopped evaluating after repeated hangs of the code under test (env.HangSkip)."""
+
+
 def _wrap(fn, idx, item):
     try:
         return idx, fn(item), None
+    except env.HangSkip as e:
+        return idx, None, "HANGSKIP: " + str(e)
     except BaseException:  # report, never hang the pool
         return idx, None, traceback.format_exc()
 
@@ -78,6 +84,9 @@ def pmap(fn, items, nproc=None, chunksize=1):
             out += more
             out += [_wrap(fn, i, items[i]) for i in lost2]
     out.sort(key=lambda r: r[0])
+    for idx, res, err in out:
+        if err and err.startswith("HANGSKIP"):
+            raise Aborted(err)
     for idx, res, err in out:
         if err:
             sys.stderr.write(err)
